@@ -296,6 +296,15 @@ def gen_case(rng, kind, n_ops, malformed=False):
                 t = rng.choice(used) if bad in ("reuse", "cancelled") and used else rng.choice(every)
             p = rng.randrange(nprocs + 1)
             kk = rng.choice(["PUT", "GET", "CPUT", "CGET"])
+            if bad == "wrongowner" and rng.random() < 0.6:
+                # a thief that holds a granted reservation of its own on the same side presents another
+                # process's granted token
+                side = rng.choice([("PUT", granted_put), ("GET", granted_get)])
+                owners = {tk: im.toks[tk].requesting_process[1] for tk in side[1]}
+                pairs = [(a, b) for a in owners for b in owners if owners[a] != owners[b]]
+                if pairs:
+                    victim, own = rng.choice(pairs)
+                    kk, t, p = side[0], victim, owners[own]
             if kk == "PUT":
                 nextitem[0] += 1
                 op = ("PUT", p, t, nextitem[0])
